@@ -4,6 +4,8 @@ import Casket.Model.Link
 import Casket.Model.FCGI
 import Casket.Spec.PeerBytes
 import Driver.Proto
+import Driver.C20
+import Casket.Model.Limits
 /-
 Streams of C19 (hex = hex-encoded bytes).
   c19.hello   hex                      out = info | PANIC:<class>
@@ -16,6 +18,7 @@ Streams of C19 (hex = hex-encoded bytes).
   c19.record  hex                      out = out=<hex>;err=<hex>;fin=<eof|ueof|badver>
   c19.pairs   klen vlen                out = ok:<wire length> | PANIC:<class>
   c19.explore …                        out = ok | PANIC  (no model: exploration of handler entry points)
+  c19.replacer  (fields of c20.replace)  out = hex of the expansion | PANIC | HANG  (model: slice C20's Replacer model)
   c19.handshake cuts uahex             out = same | differs:… | PANIC (no model: real crypto/tls handshakes, split vs unsplit)
   info  = v=<n>;cs=<list>;cm=<hex>;ex=<list>;cu=<list>;pt=<hex>     "-" = nothing recorded
 -/
@@ -172,6 +175,14 @@ def pairsModel : List String → String
     | _, _ => "bad-case"
   | _ => "bad-case"
 
+/-- c19.matches  cs pathhex basehex : `httpserver.Path(path).Matches(base)` on hostile request paths;
+model = slice C17's `Limits.pathMatches` (ASCII case folding: non-ASCII bytes only with cs = 1) -/
+def matchesModel : List String → String
+  | [cs, p, b] => match Driver.unhex p, Driver.unhex b with
+    | some p, some b => if Casket.Limits.pathMatches (cs == "1") p b then "1" else "0"
+    | _, _ => "bad-case"
+  | _ => "bad-case"
+
 def streams : List Driver.Stream := [
   { name := "c19.hello", model := helloModel, judge := judgeTotal },
   { name := "c19.looks", model := looksModel, judge := looksJudge },
@@ -183,6 +194,11 @@ def streams : List Driver.Stream := [
   { name := "c19.record", model := recordModel, judge := judgeTotal },
   { name := "c19.pairs", model := pairsModel, judge := judgeTotal },
   { name := "c19.explore", model := fun _ => "ok", judge := judgeTotal },
+  { name := "c19.matches", model := matchesModel, judge := judgeTotal },
+  -- the Replacer over hostile request text: slice C20's model and evaluator, judged for panics / hangs
+  { name := "c19.replacer", model := Driver.C20.replaceModel,
+    judge := fun _ out => if out == "PANIC" || out.startsWith "PANIC" then "bad:panic:Replace panicked"
+      else if out == "HANG" then "bad:panic:Replace did not return" else "ok" },
   { name := "c19.handshake", model := fun _ => "same",
     judge := fun _ out => if out == "same" then "ok"
       else if out.startsWith "PANIC" then totalVerdict (observed out)
